@@ -42,12 +42,66 @@ std::string rv(const std::optional<T>& v)
 {
     return v ? rv(*v) : std::string("-");
 }
+// Field-by-field digest of a blob struct, independent of the library's encoder: rendering a decoded value through
+// to_blob() alone would hide an encoder that maps two different values onto the same bytes.
+void sh(Hasher& h, const std::vector<std::byte>& v) { h.u64(v.size()); h.bytes(v.data(), v.size()); }
+void sh(Hasher& h, const dj::pad_color& c) { h.u64(((uint64_t)c.r << 24) | ((uint64_t)c.g << 16) | ((uint64_t)c.b << 8) | c.a); }
+void sh(Hasher& h, const v2::track_data_blob& b)
+{
+    h.u64(double_bits(b.sample_rate)); h.u64((uint64_t)b.samples); h.u64((uint64_t)(int64_t)b.key);
+    h.u64(double_bits(b.average_loudness_low)); h.u64(double_bits(b.average_loudness_mid)); h.u64(double_bits(b.average_loudness_high));
+    sh(h, b.extra_data);
+}
+void sh(Hasher& h, const v2::overview_waveform_data_blob& b)
+{
+    h.u64(double_bits(b.samples_per_waveform_point)); h.u64(b.waveform_points.size());
+    for (auto& p : b.waveform_points)
+        h.u64(((uint64_t)p.low_value << 16) | ((uint64_t)p.mid_value << 8) | p.high_value);
+    h.u64(((uint64_t)b.maximum_point.low_value << 16) | ((uint64_t)b.maximum_point.mid_value << 8) | b.maximum_point.high_value);
+    sh(h, b.extra_data);
+}
+void sh(Hasher& h, const v2::beat_data_blob& b)
+{
+    h.u64(double_bits(b.sample_rate)); h.u64(double_bits(b.samples)); h.u64(b.is_beatgrid_set);
+    for (auto* g : {&b.default_beat_grid, &b.adjusted_beat_grid})
+    {
+        h.u64(g->size());
+        for (auto& m : *g)
+        {
+            h.u64(double_bits(m.sample_offset)); h.u64((uint64_t)m.beat_number); h.u64((uint64_t)(int64_t)m.number_of_beats);
+            h.u64((uint64_t)(int64_t)m.unknown_value_1);
+        }
+    }
+    sh(h, b.extra_data);
+}
+void sh(Hasher& h, const v2::quick_cues_blob& b)
+{
+    h.u64(b.quick_cues.size());
+    for (auto& q : b.quick_cues)
+    {
+        h.str(q.label); h.u64(double_bits(q.sample_offset)); sh(h, q.color);
+    }
+    h.u64(double_bits(b.adjusted_main_cue)); h.u64(b.is_main_cue_adjusted ? 1 : 0); h.u64(double_bits(b.default_main_cue));
+    sh(h, b.extra_data);
+}
+void sh(Hasher& h, const v2::loops_blob& b)
+{
+    h.u64(b.loops.size());
+    for (auto& l : b.loops)
+    {
+        h.str(l.label); h.u64(double_bits(l.start_sample_offset)); h.u64(double_bits(l.end_sample_offset));
+        h.u64(l.is_start_set); h.u64(l.is_end_set); sh(h, l.color);
+    }
+    sh(h, b.extra_data);
+}
 template <typename B>
 std::string rblob(const B& b)
 {
+    Hasher h;
+    sh(h, b);
     try
     {
-        return hexs(b.to_blob());
+        return hexs(b.to_blob()) + "/f" + hex64(h.value());
     }
     catch (const std::exception& e)
     {
@@ -1067,6 +1121,9 @@ bool World::exec_table_op(const Step& s)
         int64_t id = 0;
         Outcome o = call(s.fault, [&] { id = tt.add(row); });
         note("t_add -> " + (o.threw ? "threw " + o.exc + ": " + o.what : "id " + std::to_string(id)));
+        if (o.threw && !collide && !hostile && !atomic && !o.fault_fired)
+            // every generated value of the non-hostile profiles is inside the encodable domain (labels <= 255 bytes, ...)
+            report("C03", "C03|t_add|" + F + "|encodable-refused", "add() of a row inside the encodable domain threw " + o.exc + ": " + o.what);
         if (!o.threw && collide)
             report("C18", "C18|t_add|" + F + "|unique-collision-accepted",
                    "add() of a row whose path or origin key equals that of an existing row returned normally");
@@ -1091,6 +1148,8 @@ bool World::exec_table_op(const Step& s)
         row.id = id;
         Outcome o = call(s.fault, [&] { tt.update(row); });
         note("t_update " + std::to_string(id) + (o.threw ? " -> threw " + o.exc + ": " + o.what : " -> ok"));
+        if (o.threw && !hostile && !atomic && !o.fault_fired)
+            report("C03", "C03|t_update|" + F + "|encodable-refused", "update() with a row inside the encodable domain threw " + o.exc + ": " + o.what);
         if (!o.threw)
         {
             auto e = expect_row(row, id, T.range, T.uuid);
@@ -1151,6 +1210,9 @@ bool World::exec_table_op(const Step& s)
         Outcome o = call(s.fault, [&] { c.set(tt, id, donor); });
         note("t_setcol " + std::string(c.name) + " on " + std::to_string(id) + (o.threw ? " -> threw " + o.exc + ": " + o.what : " -> ok"));
         op_counts["t_setcol:" + std::string(c.name)]++;
+        if (o.threw && c.blob && !hostile && !atomic && !o.fault_fired)
+            report("C03", "C03|t_setcol_" + std::string(c.name) + "|" + F + "|encodable-refused",
+                   "the blob setter refused a value inside the encodable domain: " + o.exc + ": " + o.what);
         if (!o.threw)
         {
             c.copy(T.rows[id], donor);
